@@ -15,6 +15,7 @@ STRATA = [
     ("threshold", 500, 8000),
     ("planted", 40, 600),
     ("mid", 400, 6000),
+    ("cp-cnf", 400, 6000),
     ("enum", 1500, 25000),
     ("assume", 800, 12000),
     ("tuning", 500, 8000),
